@@ -110,6 +110,14 @@ CHECKS["C14"] = dict(
     technique="bounded symbolic execution of the real solver dispatch with recording stubs + z3; replay on real code",
     ref="5/C14")
 
+CHECKS["C19"] = dict(
+    text="Each documented constraint (39 table rows + explicit grid lists) is violated in an otherwise valid configuration and the real loaders / setters run symbolically: on every "
+         "feasible path an exception must be raised before results are returned. Numeric offenders (grid entries, span fractions, angles) are symbolic and the solver produces the "
+         "witness; wrong list lengths are enumerated 0..2N+3; string offenders use one reserved witness string.",
+    note="Strings: equality-only use assumed (one 'other' string stands for all); first solve is LLsolve except the solver-type row (real solve).",
+    technique="bounded symbolic execution of the real validation code with path exploration + z3 feasibility / witness; replay on real code",
+    ref="5/C19")
+
 NOT_APPLICABLE = {
     "C18": "classical lifting-line limits: a convergence statement about the N>=20 discrete solution (value and rate under grid refinement); no bounded SMT encoding of the 40x40 transcendental system is within reach and the small N the engine handles is where the claim is not expected to hold",
 }
